@@ -2,6 +2,7 @@ import FlexVerif.Driver.Case
 import FlexVerif.Validator.Validate
 import FlexVerif.Driver.Trace
 import FlexVerif.Driver.TblCmd
+import FlexVerif.Validator.Useful
 namespace FlexVerif
 
 def showLabel : Option (List Int) → String
@@ -43,6 +44,22 @@ def mainImpl (args : List String) : IO UInt32 := do
     for e in c.errors do IO.println s!"error {e}"
     if !c.errors.isEmpty then return 2
     cmdTrace c (rest.contains "--spec")
+  | "useful" :: path :: rest =>
+    let lines ← IO.FS.lines path
+    let c := Case.ofLines lines
+    for e in c.errors do IO.println s!"error {e}"
+    if !c.errors.isEmpty then return 2
+    let S := c.ruleSet
+    let budget := (rest.head?.bind String.toNat?).getD 20000
+    let classes := groupBySig S.allSets (bytesBelow c.csize)
+    let (cert, exhausted) := reach S classes budget
+    if exhausted then
+      IO.println s!"useful exhausted states={cert.length}"
+      return 0
+    let ok := certOK S c.csize classes cert
+    let us := (usefulRules cert).mergeSort (· ≤ ·)
+    IO.println s!"useful certok={if ok then 1 else 0} states={cert.length} rules={" ".intercalate (us.map toString)}"
+    return 0
   | "tbl-dump" :: path :: _ => cmdTblDump path
   | "tbl-load" :: path :: key :: _ => cmdTblLoad path key
   | _ =>
